@@ -30,7 +30,8 @@ physically by at most one ulp (1.1e-16 relative).  Equality with the baseline is
     build with the input nudged by a relative +-1e-13 differs from the baseline, e.g. a duration sitting exactly
     on an hour boundary that is rounded up to full hours) — those cases are counted
     (``skipped_inexact_at_discontinuity``), not judged, because there a one-ulp different input legitimately
-    gives another result.
+    gives another result.  The excuse is narrow: the observed result must *be* one of the two one-sided results
+    (what the real code returns for the input nudged up or down); anything else is still a violation.
 """
 import itertools
 import json
@@ -296,21 +297,31 @@ def live(w0, letters):
 
 def discontinuous(fam, obj, attr, cnt):
     """Is the (fresh-build) model discontinuous at the baseline value of this input?  Decided by the real code:
-    the input nudged by a relative +-1e-13 gives a result that differs from the baseline (or is refused)."""
+    the input nudged by a relative +-1e-13 gives a result that differs from the baseline (or is refused).
+    Returns the list of one-sided results that differ from the baseline (empty = continuous)."""
     k = (fam, obj, attr)
     r = _disc.get(k)
     if r is None:
         w0 = W.family(fam)
         spec = w0["objects"][obj]["attrs"][attr]
-        r = False
+        r = []
         for s in (1 + NUDGE, 1 - NUDGE):
             cnt["builds"] += 1
             fr = fresh(with_subs(w0, [[obj, attr, scaled(spec, s)]]))
             if fr[0] != "ok" or S.diff(fr[1], baseline(fam)["snap"]):
-                r = True
-                break
+                r.append(fr)
         _disc[k] = r
     return r
+
+
+def is_one_sided_result(res, limits):
+    """The observed result is what the real code gives for the input one ulp-ish to the left or right."""
+    for lim in limits:
+        if lim[0] != "ok" and res[0] != "ok":
+            return True
+        if lim[0] == "ok" and res[0] == "ok" and not S.diff(res[1], lim[1]):
+            return True
+    return False
 
 
 def first_divergent(fam, d):
@@ -401,7 +412,7 @@ def judge(fam, mode, w0, subs, cnt):
             return "stale-update-path(control-equal)", [], S.digest(res[1], 8)
         return "violation", [violation(subs, res, d)], None
     if len(subs) == 1:
-        if discontinuous(fam, subs[0][0], subs[0][1], cnt):
+        if is_one_sided_result(res, discontinuous(fam, subs[0][0], subs[0][1], cnt)):
             return "skipped_inexact_at_discontinuity", [], None
         if control_explains(subs, res):
             return "stale-update-path(control-equal)", [], S.digest(res[1], 8)
